@@ -29,19 +29,19 @@ const (
 
 // Config is the deployment configuration shared by all instances of a run.
 type Config struct {
-	Sidecar      bool   `json:"sidecar,omitempty"`
-	NoTmpFile    bool   `json:"notmpfile,omitempty"`
-	Versioning   bool   `json:"versioning,omitempty"` // a versioning directory is configured
-	ChownUID     bool   `json:"chownuid,omitempty"`
-	ChownGID     bool   `json:"chowngid,omitempty"`
-	BucketLinks  bool   `json:"bucketlinks,omitempty"`
-	Instances    int    `json:"instances,omitempty"`
-	CacheTTL     int    `json:"cache_ttl,omitempty"` // seconds, 0 = cache disabled
-	ReadOnly     bool   `json:"readonly,omitempty"`
-	Webhook      bool   `json:"webhook,omitempty"`
-	EventFilter  string `json:"event_filter,omitempty"` // JSON text of a filter file, "" = none
-	NoIAMDir     bool   `json:"no_iam_dir,omitempty"`  // single-account mode
-	AdminRoutes  bool   `json:"-"`
+	Sidecar     bool   `json:"sidecar,omitempty"`
+	NoTmpFile   bool   `json:"notmpfile,omitempty"`
+	Versioning  bool   `json:"versioning,omitempty"` // a versioning directory is configured
+	ChownUID    bool   `json:"chownuid,omitempty"`
+	ChownGID    bool   `json:"chowngid,omitempty"`
+	BucketLinks bool   `json:"bucketlinks,omitempty"`
+	Instances   int    `json:"instances,omitempty"`
+	CacheTTL    int    `json:"cache_ttl,omitempty"` // seconds, 0 = cache disabled
+	ReadOnly    bool   `json:"readonly,omitempty"`
+	Webhook     bool   `json:"webhook,omitempty"`
+	EventFilter string `json:"event_filter,omitempty"` // JSON text of a filter file, "" = none
+	NoIAMDir    bool   `json:"no_iam_dir,omitempty"`   // single-account mode
+	AdminRoutes bool   `json:"-"`
 }
 
 // Dirs are the directories of one simulated deployment.
@@ -80,6 +80,11 @@ type Gateway struct {
 type EventSink struct {
 	Posts [][]byte
 	S     *sim.Sim
+	// Late, if set, tells whether the request that spawned the delivering task had already been
+	// answered and a later request had begun when the document was serialised (the window in which
+	// the request context of the originating request has been recycled)
+	Late           func(t *sim.Task) bool
+	LateDeliveries int
 }
 
 func (e *EventSink) RoundTrip(r *http.Request) (*http.Response, error) {
@@ -98,6 +103,9 @@ func (e *EventSink) RoundTrip(r *http.Request) (*http.Response, error) {
 		b = buf
 	}
 	if e.S != nil {
+		if t := e.S.Cur(); t != nil && e.Late != nil && e.Late(t) {
+			e.LateDeliveries++
+		}
 		e.S.Yield("webhook.post")
 	}
 	e.Posts = append(e.Posts, b)
